@@ -1,280 +1,541 @@
-"""C06 -- Craig-Bampton utilities (thin partial claim)."""
+"""C06 -- Craig-Bampton utilities (thin partial claim).
+
+Every rule evaluates the anchored function on symbols (verifier/c06_sem.py) and compares *values*: the arrays are found through the field
+names of the returned namespace, the report quantities through the text label they are written under, helper functions of the module are
+followed on their argument values, regimes are stated as facts about values (not as the text of a test)."""
 from __future__ import annotations
 
 import ast
 from fractions import Fraction
 
 from . import e2_formula as F
-from .core import AnchorError, Unsupported
-from .e1_srcmodel import dotted, walk_no_nested, parent, ancestors, utext
-from .e2_eval import Evaluator, is_unknown, need, const_from_node
-from .e3_spaces import Arr, Idx, Ix, Typer
+from .core import Unsupported
+from . import c06_sem as cs
+from .c06_sem import Run, NS, eq, is_rat, unfn, split_call, untuple, atoms_in, texts_in, factors, place, signature, single_atom, is_unknown
 
 CB = "pyyeti/cb.py"
 N2P = "pyyeti/nastran/n2p.py"
+YT = "pyyeti/ytools.py"
+
+
+def _tables(ctx, exclude=()):
+    inl = cs.module_funcs(ctx, CB, exclude=exclude)
+    return inl, cs.module_consts(ctx, CB)
+
+
+def _chk(ctx, S, ok, text, node, detail=None, arrays=(), nontrivial=True):
+    """an obligation about the content of arrays: when an undecided test stored into one of them the content is not known -> analysis error"""
+    if not ok:
+        for v in arrays:
+            b = S.buf(v)
+            if b is not None and b.bid in S.ev.w.maybe:
+                ctx.error(text, node, {"reason": "a test the rule cannot decide guards a store into this array",
+                                       "tests": [ast.unparse(t.test)[:80] for t in S.ev.w.undecided][:4]})
+                return False
+    return ctx.check(ok, text, node, detail, nontrivial=nontrivial)
+
+
+def _r(v, n=240):
+    return repr(v)[:n]
+
+
+# ============================================================================================================ R1  cbtf
+class _Spaces:
+    """index-space typing of the values of cbtf: T all DOF, B boundary, Q interior, F frequencies, Fnz non-zero frequencies"""
+
+    def __init__(self, S):
+        self.S = S
+        R = S.root
+        self.mats = [R("m"), R("b"), R("k")]
+        self.a = R("a")
+        self.omega = R("2 * math.pi * freq")
+        self.freq = R("freq")
+        self.bset = R("bset")
+        self.q = R("locate.flippv(bset, m.shape[0])")
+        self.nz = R("(2 * math.pi * freq) != 0.0")
+        self.nT = [R(t) for t in ("m.shape[0]", "m.shape[1]", "len(m)", "k.shape[0]", "b.shape[0]")]
+        self.nF = [R(t) for t in ("len(2 * math.pi * freq)", "len(freq)", "a.shape[1]", "freq.size", "(2 * math.pi * freq).size", "freq.shape[0]", "(2 * math.pi * freq).shape[0]")]
+        self.nB = [R(t) for t in ("len(bset)", "a.shape[0]", "bset.size", "len(a)", "bset.shape[0]")]
+
+    def dim_space(self, v):
+        if any(eq(v, x) for x in self.nT):
+            return "T"
+        if any(eq(v, x) for x in self.nF):
+            return "F"
+        if any(eq(v, x) for x in self.nB):
+            return "B"
+        return None
+
+    def index(self, v):
+        """(target space, selected space) of an index vector / mask"""
+        if eq(v, self.bset):
+            return ("T", "B")
+        if eq(v, self.q):
+            return ("T", "Q")
+        if eq(v, self.nz):
+            return ("F", "Fnz")
+        return None
+
+    def type_of(self, v):
+        if not is_rat(v):
+            return None
+        if any(eq(v, x) for x in self.mats):
+            return ("T", "T")
+        if eq(v, self.a):
+            return ("B", "F")
+        if eq(v, self.omega) or eq(v, self.freq):
+            return ("F",)
+        b = self.S.buf(v)
+        if b is not None:
+            shp = b.shape
+            if shp is None:
+                return None
+            if len(shp) == 2 and shp[0] == "like":
+                return self.type_of(shp[1])
+            if len(shp) == 1:
+                u = unfn(shp[0]) if is_rat(shp[0]) else None
+                if u is not None and u[0] == "attr:shape":
+                    return self.type_of(u[1][0])
+            out = tuple(self.dim_space(x) if is_rat(x) else None for x in shp)
+            return None if any(x is None for x in out) else out
+        u = unfn(v)
+        if u is None:
+            return None
+        if u[0] in ("attr:d", "attr:a", "attr:v") and split_call(u[1][0]) is not None and split_call(u[1][0])[0] == ".fsolve":
+            return ("Q", "F")
+        if u[0] == "idx":
+            r = self.apply(u[1][0], u[1][1])
+            return r[1] if r else None
+        return None
+
+    def apply(self, x, ix):
+        """(agrees, resulting type) of x[ix]; None when the spaces are not known"""
+        tx = self.type_of(x)
+        if tx is None:
+            return None
+        sc = split_call(ix)
+        if sc is not None and sc[0] == "np.ix_":
+            sel = list(sc[1])
+        else:
+            sel = untuple(ix) or [ix]
+        if len(sel) > len(tx):
+            return None
+        out, ok = [], True
+        for ax, s in enumerate(sel):
+            us = unfn(s)
+            if us is not None and us[0] == "slice":
+                if all(eq(p, cs.NONE) for p in us[1]):
+                    out.append(tx[ax])
+                    continue
+                return None
+            t = self.index(s)
+            if t is None:
+                return None
+            ok = ok and t[0] == tx[ax]
+            out.append(t[1])
+        out.extend(tx[len(sel):])
+        return ok, tuple(out)
+
+    def value_type(self, v):
+        """type of a sum of broadcast products (every term must have the same type); None when not known"""
+        t = self.type_of(v)
+        if t is not None:
+            return t
+        fs = factors(v)
+        if fs is None:
+            # quotient with a one-term denominator / a sum: look at numerator terms only when the denominator is one monomial
+            try:
+                if len(v.d.t) == 1 and len(v.n.t) == 1:
+                    num = F.Rat(v.n)
+                    den = F.Rat(v.d)
+                    tn, td = self.value_type(num), self.value_type(den)
+                    if tn is not None and (td is None or td == () or tn[-len(td):] == td):
+                        return tn
+            except Exception:  # noqa
+                return None
+            return None
+        best = ()
+        for a, _e in fs[1]:
+            if eq(a, F.I):
+                continue
+            ta = self.type_of(a)
+            if ta is None:
+                if a.is_const():
+                    continue
+                return None
+            if len(ta) > len(best):
+                if best and ta[-len(best):] != best:
+                    return None
+                best = ta
+            elif ta and best[-len(ta):] != ta:
+                return None
+        return best
 
 
 def r1_cbtf(ctx):
-    fn = ctx.src.func(CB, "cbtf")
-    # --- b/q partition typing
-    attrs = {}
-    params = {"m": Arr("T", "T"), "b": Arr("T", "T"), "k": Arr("T", "T"), "a": Arr("B", None), "bset": Idx("T", "B"), "qset": Idx("T", "Q"),
-              "sol.d": Arr("Q", None), "sol.a": Arr("Q", None), "sol.v": Arr("Q", None)}
-    bad = {}
+    """cbtf with a non-empty interior set: values of the returned fields frc / a / d / v, of the solver and of its load; index spaces of every
+    subscript that reaches them; the all-boundary model; the solver cache"""
+    fn = cs.func(ctx, CB, "cbtf")
+    inl, consts = _tables(ctx)
 
-    def report(kind, node, detail):
-        bad.setdefault(id(node), []).append((kind, node, detail))
+    def run(q_empty, mapping=False, miss=False):
+        S = Run(ctx, fn, inline=inl, consts=consts, run=False, handler_path=(lambda t: miss))
+        S.truth("isinstance(save, abc.MutableMapping)", mapping)
+        for form in ("{q}.size", "len({q})", "{q}.shape[0]"):
+            S.sign(form.format(q="locate.flippv(bset, m.shape[0])"), "zero" if q_empty else "pos")
+        S.sign("a.ndim - 1", "pos")
+        S.sign("a.ndim - 2", "zero")
+        S.sign("a.shape[1] - 1", "pos")
+        S.ev.run(fn.body)
+        return S
 
-    T = Typer(attrs, params, set(), report, "cbtf")
-    body = [s for s in fn.body]
-    # displ / accel are allocated with lt = m.shape[0] rows: full space
-    T.env.update({"displ": Arr("T", None), "accel": Arr("T", None), "veloc": Arr("T", None), "v": Arr("B", None)})
-    arm = [s for s in fn.body if isinstance(s, ast.If) and ast.unparse(s.test).replace(" ", "") == "qset.size==0"]
-    if len(arm) != 1:
-        raise AnchorError("cbtf: `if qset.size == 0`")
-    keep = {"displ", "accel", "veloc", "v", "tf", "sol"}
-    stmts = [s for s in arm[0].orelse if not (isinstance(s, ast.Assign) and isinstance(s.targets[0], ast.Name) and s.targets[0].id in ("displ", "accel", "v", "tf"))]
-    T.run(stmts)
-    seen = set()
-    for lst in bad.values():
-        for kind, node, detail in lst:
-            key = f"C06-R1|cbtf|{kind}|{ast.unparse(node)[:80]}"
-            if key in seen:
-                continue
-            seen.add(key)
-            ctx.fail(f"cbtf: {kind}", node, detail, key=key)
-    for node in T.checked:
-        if id(node) not in bad:
-            ctx.ok(f"cbtf: `{ast.unparse(node)[:70]}` boundary / interior index spaces agree", node)
-    # --- everything below is decided on formulas: the function body is evaluated on symbols (AutoEvaluator), temporaries substituted
-    from .e2_eval import AutoEvaluator
-
-    def cond(test, ev):
-        # the interior set is not empty; the solver is not cached (the arm that builds it is the one to look at)
-        return {"qset.size==0": False, "tfisNone": True, "isinstance(save,abc.MutableMapping)": False}.get(utext(test))
-
-    ev = AutoEvaluator(fn, src=ctx.src, cond=cond, pinned={"a": F.sym("a")})
-    ev.decide_default = None
-    # the cache test `save is None or 'tf' not in save` may go either way: evaluate the arm that builds the solver
-    for st in fn.body:
-        ev.stmt(st)
-    E = ev.expr
-
-    def same(got, want_text):
-        w = E(want_text)
-        return got is not None and not is_unknown(got) and not is_unknown(w) and not isinstance(got, tuple) and need(got).equals(need(w))
-
-    ok = same(ev.env.get("qset"), "locate.flippv(bset, m.shape[0])")
-    ctx.check(ok, "cbtf: the interior set is the complement of the boundary set in the full equation set", fn, repr(ev.env.get("qset")))
-    cells = {}
-    for nm, ix, val, st in ev.cells:
-        cells.setdefault(nm, []).append((ix, val, st))
-
-    def cell(nm, index_text):
-        w = E(f"{nm}[{index_text}]")          # idx(nm, index) atom; compare index parts
-        for ix, val, st in cells.get(nm, []):
-            if not is_unknown(ix) and need(F.fn("idx", F.sym(nm), ix)).equals(need(w)):
-                return val
-        return None
-
-    nz = "Omega != 0.0"
-    ok = same(cell("accel", "bset"), "a") and same(cell("accel", "qset"), "sol.a")
-    ctx.check(ok, "cbtf: the returned boundary acceleration is the enforced one at every frequency (including 0 Hz, where it cannot be derived from the "
-                  "displacement) and the interior acceleration is the solver's", arm[0], {"accel[bset]": repr(cell("accel", "bset")), "accel[qset]": repr(cell("accel", "qset"))})
-    ok = same(cell("displ", "qset"), "sol.d") and same(cell("displ", f"np.ix_(bset, {nz})"), f"-a[:, {nz}] / Omega[{nz}] ** 2")
-    ctx.check(ok, "cbtf: boundary displacement = -a/W^2 at non-zero frequencies only, interior displacement from the solver", arm[0],
-              {"displ[qset]": repr(cell("displ", "qset")), "displ[bset, nz]": repr(cell("displ", f"np.ix_(bset, {nz})"))})
-    # --- q-set equation of motion:  Mqq q'' + Bqq q' + Kqq q = -(Mqb a + Bqb v_b),  v_b = a/(i W) at non-zero frequencies, 0 at 0 Hz
-    ok = same(cell("v", f":, {nz}"), f"1j * a[:, {nz}] / Omega[{nz}]")
-    vinit = ev.env.get("<init:v>")
-    ok = ok and vinit is not None and not is_unknown(vinit) and need(vinit).is_zero()
-    ctx.check(ok, "cbtf: the boundary term v is i a / W (minus the boundary velocity a/(i W)) at non-zero frequencies and zero at 0 Hz", arm[0],
-              repr(cell("v", f":, {nz}")))
-    ok = same(ev.env.get("f"), "b[np.ix_(locate.flippv(bset, m.shape[0]), bset)] @ v - m[np.ix_(locate.flippv(bset, m.shape[0]), bset)] @ a")
+    S = run(False)
+    ret = S.ret()
+    want_fields = {"frc", "a", "d", "v", "freq", "f"}
+    if not isinstance(ret, NS) or not want_fields <= set(ret.fields):
+        ctx.error("cbtf: the returned namespace (fields frc, a, d, v, freq, f) was not lowered", fn, _r(ret))
+        return
+    A, D, V, FRC = (S.ev.deref(ret.fields[k]) for k in ("a", "d", "v", "frc"))
+    Q = "locate.flippv(bset, m.shape[0])"
+    OM = "(2 * math.pi * freq)"
+    NZ = f"({OM} != 0.0)"
+    qv = S.root(Q)
+    # ---- the solver: found through the interior rows of the returned acceleration
+    a_q = S.cell(A, Q)
+    ua = unfn(a_q) if is_rat(a_q) else None
+    sol = ua[1][0] if ua is not None and ua[0] == "attr:a" else None
+    fs = split_call(sol) if sol is not None else None
+    ok = fs is not None and fs[0] == ".fsolve" and len(fs[1]) >= 3
+    _chk(ctx, S, ok, "cbtf: the interior set is the complement of the boundary set in the full equation set: the interior rows of the returned "
+                     "acceleration are the acceleration of the frequency-domain solution", ret.node or fn, _r(a_q), arrays=[A])
+    if not ok:
+        ctx.error("cbtf: solver call not found", fn, [(_r(i, 80), _r(v, 120)) for i, v, _ in S.cells(A)])
+        return
+    tf, fq, fr = fs[1][0], fs[1][1], fs[1][2]
+    ok = eq(S.cell(A, "bset"), S.root("a")) and len(S.cells(A)) == 2
+    _chk(ctx, S, ok, "cbtf: the returned boundary acceleration is the enforced one at every frequency (including 0 Hz, where it cannot be derived from the "
+                     "displacement) and the interior acceleration is the solver's", ret.node or fn, [(_r(i, 80), _r(v, 120)) for i, v, _ in S.cells(A)], arrays=[A])
+    bd = S.buf(D)
+    ok = eq(S.cell(D, Q), F.fn("attr:d", sol)) and eq(S.cell(D, f"np.ix_(bset, {NZ})"), S.root(f"-a[:, {NZ}] / {OM}[{NZ}] ** 2")) \
+        and len(S.cells(D)) == 2 and bd is not None and is_rat(bd.init) and bd.init.is_zero()
+    _chk(ctx, S, ok, "cbtf: boundary displacement = -a/W^2 at non-zero frequencies only (zero at 0 Hz), interior displacement from the solver", ret.node or fn,
+         [(_r(i, 80), _r(v, 120)) for i, v, _ in S.cells(D)], arrays=[D])
+    ok = eq(fr, S.root("freq"))
+    ctx.check(ok, "cbtf: the interior system is solved at the requested frequencies", fs and ret.node or fn, _r(fr), nontrivial=False)
+    # ---- q-set equation of motion:  Mqq q'' + Bqq q' + Kqq q = -(Mqb a + Bqb v_b),  v_b = a/(i W) at non-zero frequencies, 0 at 0 Hz
+    vb = None
+    for b in S.all_bufs():
+        if b.init is not None and S.same(fq, f"b[np.ix_({Q}, bset)] @ __v - m[np.ix_({Q}, bset)] @ a", __v=b.sym):
+            vb = b
+    if vb is None and S.same(fq, f"b[np.ix_({Q}, bset)] @ (1j * a / {OM}) - m[np.ix_({Q}, bset)] @ a"):
+        ctx.fail("cbtf: the boundary velocity term is not guarded against 0 Hz", fn, _r(fq))
+    ok = vb is not None
     ctx.check(ok, "cbtf: interior load is Bqb v - Mqb a with v = i a / W, i.e. -(Mqb a + Bqb a/(i W)) - the coupling terms of the full equations of "
-                  "motion moved to the right-hand side", arm[0], repr(ev.env.get("f")))
-    # --- boundary force: rows bset of M a + B v + K d (K_bq = 0 for a Craig-Bampton stiffness)
-    ok = same(ev.env.get("frc"), "m[bset] @ accel + b[bset] @ veloc_ + k[np.ix_(bset, bset)] @ displ[bset]".replace("veloc_", "(1j * (Omega * displ))"))
-    ctx.check(ok, "cbtf: boundary force = boundary rows of M a + B v + K d with v = i W d", arm[0], repr(ev.env.get("frc")))
-    ok = same(ev.env.get("veloc"), "1j * (Omega * displ)")
-    ctx.check(ok, "cbtf: velocity = i W displacement on every row", fn, repr(ev.env.get("veloc")))
-    # --- the fixed-base interior system has no rigid-body modes
-    calls = [c for c in ast.walk(fn) if isinstance(c, ast.Call) and dotted(c.func) == "ode.SolveUnc"]
-    qq = "np.ix_(locate.flippv(bset, m.shape[0]), locate.flippv(bset, m.shape[0]))"
-    ok = len(calls) == 1 and len(calls[0].args) == 3 and all(same(ev.ev(x), f"{mat}[{qq}]") for x, mat in zip(calls[0].args, "mbk")) and \
-        any(k.arg == "rb" and utext(k.value) in ("[]", "()") for k in calls[0].keywords)
+                  "motion moved to the right-hand side", ret.node or fn, None if ok else _r(fq, 400))
+    if vb is not None:
+        cl = S.cells(vb.sym)
+        ok = len(cl) == 1 and eq(S.cell(vb.sym, f":, {NZ}"), S.root(f"1j * a[:, {NZ}] / {OM}[{NZ}]")) and is_rat(vb.init) and vb.init.is_zero()
+        _chk(ctx, S, ok, "cbtf: the boundary term v is i a / W (minus the boundary velocity a/(i W)) at non-zero frequencies and zero at 0 Hz", vb.node,
+             [(_r(i, 80), _r(v, 120)) for i, v, _ in cl], arrays=[vb.sym])
+    # ---- boundary force: rows bset of M a + B v + K d (K_bq = 0 for a Craig-Bampton stiffness)
+    ok = S.same(V, f"1j * ({OM} * __d)", __d=D)
+    ctx.check(ok, "cbtf: velocity = i W displacement on every row", ret.node or fn, None if ok else _r(V))
+    ok = S.same(FRC, f"m[bset] @ __a + b[bset] @ (1j * ({OM} * __d)) + k[np.ix_(bset, bset)] @ __d[bset]", __a=A, __d=D)
+    ctx.check(ok, "cbtf: boundary force = boundary rows of M a + B v + K d with v = i W d", ret.node or fn, None if ok else _r(FRC, 400))
+    ok = eq(ret.fields["freq"], S.root("freq")) and eq(ret.fields["f"], S.root("freq"))
+    ctx.check(ok, "cbtf: the namespace returns the frequency vector under `freq` and `f`", ret.node or fn, nontrivial=False)
+    # ---- the fixed-base interior system has no rigid-body modes
+    st = split_call(tf)
+    qq = f"np.ix_({Q}, {Q})"
+    ok = st is not None and st[0] == "ode.SolveUnc" and len(st[1]) == 3 and all(S.same(x, f"{mat}[{qq}]") for x, mat in zip(st[1], "mbk"))
+    ctx.check(ok, "cbtf: the solver is built from the interior partitions (m[qq], b[qq], k[qq])", ret.node or fn, None if ok else _r(tf, 400))
+    rb = st[2].get("rb") if st is not None else None
+    ok = st is not None and rb is not None and untuple(rb) == []
     ctx.check(ok, "cbtf: the interior (fixed-boundary) system is solved with rb=[] - no mode may be treated as rigid-body (the default would auto-detect "
-                  "soft fixed-base modes and ignore their stiffness and damping)", calls[0] if calls else fn)
-    t = utext(fn)
-    ok = "tf=save['tf']" in t and "save['tf']=tf" in t
-    ctx.check(ok, "cbtf: the cached solver is the one built from (m[qq], b[qq], k[qq])", fn, nontrivial=False)
-
-
-def _returns_under(ctx, fn, truth):
-    """values returned by `fn` on the paths selected by the oracle `truth` (tests it does not know fork); AutoEvaluator per path"""
-    from .e2_eval import AutoEvaluator
-    from .paths import flag_paths
-    out = []
-    for trace, end in flag_paths(fn.body, truth):
-        if not isinstance(end, ast.Return) or end.value is None:
+                  "soft fixed-base modes and ignore their stiffness and damping)", ret.node or fn, None if ok else _r(tf, 300))
+    # ---- index spaces of every subscript that reaches the result
+    sp = _Spaces(S)
+    vals = [A, D, V, FRC, tf, fq]
+    stores = []
+    for arr in (A, D) + ((vb.sym,) if vb is not None else ()):
+        for ix, val, node in S.cells(arr):
+            vals.append(val)
+            if is_rat(ix):
+                stores.append((arr, ix, val, node))
+                vals.append(F.fn("idx", arr, ix))
+    seen = set()
+    n_typed = 0
+    for v in vals:
+        for aid in sorted(atoms_in(v)):
+            d = F.atom_desc(aid)
+            if d[0] != "fn" or d[1] != "idx" or aid in seen:
+                continue
+            seen.add(aid)
+            x, ix = [F.Rat(F._poly_from_key(k[1]), F._poly_from_key(k[2])) for k in d[2]]
+            r = sp.apply(x, ix)
+            if r is None:
+                continue
+            n_typed += 1
+            ctx.check(r[0], f"cbtf: `{F.fmt_atom(aid)[:90]}` boundary / interior / frequency index spaces agree", fn, None if r[0] else {"selected": r[1]})
+    for arr, ix, val, node in stores:
+        r = sp.apply(arr, ix)
+        tv = sp.value_type(val)
+        if r is None or tv is None:
             continue
-        ev = AutoEvaluator(fn, src=ctx.src)
-        for st in trace:
-            ev.stmt(st)
-        out.append((ev.ev(end.value), end, ev))
-    return out
+        n_typed += 1
+        ok = r[0] and (tv == r[1] or tv == ())
+        ctx.check(ok, f"cbtf: store `{_r(arr, 20)}[{_r(ix, 60)}] = ...`: the stored rows / columns live in the selected spaces", node, None if ok else {"target": r[1], "value": tv})
+    if n_typed >= 12:
+        ctx.ok("cbtf: index-space typing bound to the subscripts of the result", fn, n_typed, nontrivial=False)
+    else:
+        ctx.error("cbtf: index-space typing could not be bound to the subscripts of the result (array shapes not recognised)", fn, n_typed)
+    # ---- the model without interior DOF: every equation is a boundary equation
+    S0 = run(True)
+    r0 = S0.ret()
+    if not isinstance(r0, NS) or not want_fields <= set(r0.fields):
+        ctx.error("cbtf (no interior DOF): the returned namespace was not lowered", fn, _r(r0))
+    else:
+        A0, D0, V0, F0 = (S0.ev.deref(r0.fields[k]) for k in ("a", "d", "v", "frc"))
+        ok = eq(A0, S0.root("a"))
+        ctx.check(ok, "cbtf (no interior DOF): the returned acceleration is the enforced one", r0.node or fn, None if ok else _r(A0))
+        bd0 = S0.buf(D0)
+        cl = S0.cells(D0)
+        ok = bd0 is not None and is_rat(bd0.init) and bd0.init.is_zero() and len(cl) == 1 and \
+            (eq(S0.cell(D0, f":, {NZ}"), S0.root(f"-a[:, {NZ}] / {OM}[{NZ}] ** 2")) or eq(S0.cell(D0, f"np.ix_(np.arange(a.shape[0]), {NZ})"), S0.root(f"-a[:, {NZ}] / {OM}[{NZ}] ** 2")))
+        _chk(ctx, S0, ok, "cbtf (no interior DOF): displacement = -a/W^2 at non-zero frequencies, zero at 0 Hz", r0.node or fn,
+             [(_r(i, 80), _r(v, 120)) for i, v, _ in cl], arrays=[D0])
+        ok = S0.same(V0, f"1j * ({OM} * __d)", __d=D0) and S0.same(F0, f"m @ a + b @ (1j * ({OM} * __d)) + k @ __d", __d=D0)
+        ctx.check(ok, "cbtf (no interior DOF): force = M a + B v + K d with v = i W d", r0.node or fn, None if ok else [_r(V0), _r(F0, 300)])
+    # ---- the cache: a miss stores the solver that is built, a hit uses the stored one
+    Sm = run(False, mapping=True, miss=True)
+    built = [c for c in Sm.calls("ode.SolveUnc")]
+    sv = Sm.root("save")
+    stored = Sm.cell(sv, "'tf'")
+    used = [c for c in Sm.calls(".fsolve")]
+    ok = len(built) == 1 and len(used) == 1 and is_rat(stored) and split_call(stored) is not None and split_call(stored)[0] == "ode.SolveUnc" and eq(used[0][1][0], stored)
+    ctx.check(ok, "cbtf: on a cache miss the solver built from (m[qq], b[qq], k[qq]) is the one stored under save['tf'] and the one used", fn,
+              None if ok else [_r(stored), [_r(c[1][0], 100) for c in used]], nontrivial=False)
+    Sh = run(False, mapping=True, miss=False)
+    used = [c for c in Sh.calls(".fsolve")]
+    ok = len(used) == 1 and Sh.same(used[0][1][0], "save['tf']") and not Sh.calls("ode.SolveUnc")
+    ctx.check(ok, "cbtf: on a cache hit the stored solver save['tf'] is used and none is built", fn, None if ok else [_r(c[1][0], 100) for c in used], nontrivial=False)
+
+
+# ============================================================================================================ R2  unit conversion
+def _scaling(S, v, M):
+    """`v` as the matrix M with rows / columns scaled by diagonals: (row diagonals, column diagonals, transposed) or None"""
+    if not is_rat(v):
+        return None
+    if eq(v, M):
+        return [], [], False
+    u = unfn(v)
+    if u is not None and u[0] == "attr:T":
+        r = _scaling(S, u[1][0], M)
+        return None if r is None else (r[0], r[1], not r[2])
+    sc = split_call(v)
+    if sc is not None and sc[0] in ("ytools.multmd", "multmd") and len(sc[1]) == 2:
+        a, b = sc[1]
+        ra, rb = _scaling(S, a, M), _scaling(S, b, M)
+        if rb is not None and ra is None and S.buf(a) is not None:       # diag(a) @ b: rows of b
+            rows, cols, t = rb
+            return (rows, cols + [a], t) if t else (rows + [a], cols, t)
+        if ra is not None and rb is None and S.buf(b) is not None:       # a @ diag(b): columns of a
+            rows, cols, t = ra
+            return (rows + [b], cols, t) if t else (rows, cols + [b], t)
+        return None
+    fs = factors(v)
+    if fs is None or fs[0] != 1 or any(e != 1 for _, e in fs[1]) or len(fs[1]) < 2:
+        return None
+    mats = [(a, _scaling(S, a, M)) for a, _ in fs[1]]
+    base = [(a, r) for a, r in mats if r is not None]
+    diags = [a for a, r in mats if r is None]
+    if len(base) != 1 or not diags or any(S.buf(a) is None for a in diags):
+        return None
+    rows, cols, t = base[0][1]
+    # elementwise product with a vector scales along the last axis of the array as it is stored at that moment
+    return (rows + diags, cols, t) if t else (rows, cols + diags, t)
 
 
 def r2_conversion(ctx):
     """unit conversion: the m2e and e2m constants are reciprocals; cbconvert scales translations, rotations and modal DOF by the documented factors
     (C on the columns, D on the rows) and the reciprocal factors undo it; uset_convert scales exactly the rows that hold lengths"""
-    from .e2_eval import AutoEvaluator
-    fn = ctx.src.func(CB, "_get_conv_factors")
+    inl, consts = _tables(ctx)
+    fn = cs.func(ctx, CB, "_get_conv_factors")
     vals = {}
     for name in ("m2e", "e2m"):
-        def truth(test, name=name):
-            t = utext(test)
-            if t.startswith("conv==") and isinstance(test, ast.Compare) and isinstance(test.comparators[0], ast.Constant):
-                return test.comparators[0].value == name
-            return None
-        rets = _returns_under(ctx, fn, truth)
-        if len(rets) != 1 or not isinstance(rets[0][0], tuple) or len(rets[0][0]) != 2 or any(is_unknown(x) for x in rets[0][0]):
-            ctx.error(f"_get_conv_factors('{name}'): the returned (lengthconv, massconv) pair was not lowered", fn, repr(rets[0][0]) if rets else None)
+        S = Run(ctx, fn, args=[F.sym(repr(name))], inline=inl, consts=consts)
+        r = S.ret()
+        if not isinstance(r, tuple) or len(r) != 2 or not all(is_rat(x) and x.is_const() for x in r):
+            ctx.error(f"_get_conv_factors('{name}'): the returned (lengthconv, massconv) pair of constants was not lowered", fn, _r(r))
             return
-        vals[name] = [need(x) for x in rets[0][0]]
+        vals[name] = [x.const_value() for x in r]
     for i, q in enumerate(("lengthconv", "massconv")):
-        a_, b_ = vals["m2e"][i], vals["e2m"][i]
-        if not (a_.is_const() and b_.is_const()):
-            ctx.error(f"_get_conv_factors: {q} is not a literal constant", fn)
-            continue
-        err = abs(a_.const_value() * b_.const_value() - 1)
+        err = abs(vals["m2e"][i] * vals["e2m"][i] - 1)
         ok = err <= Fraction(1, 2 ** 51)
         ctx.check(ok, f"_get_conv_factors: the {q} of m2e and e2m are reciprocals (product within 2^-51 of 1)", fn, {"product - 1": float(err)})
-    # a user-supplied pair is passed through
-    rets = _returns_under(ctx, fn, lambda test: False if utext(test).startswith("conv==") else None)
-    ok = len(rets) == 1 and isinstance(rets[0][0], tuple) and len(rets[0][0]) == 2
-    ctx.check(ok, "_get_conv_factors: any other `conv` is taken as the (lengthconv, massconv) pair itself", fn, nontrivial=False)
-    # cbconvert factors
-    fn = ctx.src.func(CB, "cbconvert")
+    X = F.sym("<conv>")
+    S = Run(ctx, fn, args=[X], inline=inl, consts=consts, run=False)
+    for name in ("m2e", "e2m"):
+        S.truth(F.fn("cmp:Eq", X, F.sym(repr(name))), False)
+    S.ev.run(fn.body)
+    r = S.ret()
+    ok = isinstance(r, tuple) and len(r) == 2 and eq(r[0], F.fn("idx", X, F.const(0))) and eq(r[1], F.fn("idx", X, F.const(1)))
+    ctx.check(ok, "_get_conv_factors: any other `conv` is taken as the (lengthconv, massconv) pair itself", fn, None if ok else _r(r), nontrivial=False)
+    # ---- ytools.multmd: the model of it used below (rows scaled when the diagonal comes first, columns when it comes second)
+    mm = cs.func(ctx, YT, "multmd")
+    for diag_first in (True, False):
+        Sm = Run(ctx, mm, run=False)
+        Sm.sign("np.ndim(a) - 1", "zero" if diag_first else "pos")
+        Sm.ev.run(mm.body)
+        r = Sm.ret()
+        a_, b_ = Sm.root("a"), Sm.root("b")
+        want = F.fn("attr:T", a_ * F.fn("attr:T", b_)) if diag_first else a_ * b_
+        ok = eq(r, want)
+        ctx.check(ok, f"ytools.multmd: {'diag(a) @ b scales the rows of b' if diag_first else 'a @ diag(b) scales the columns of a'}", mm, None if ok else _r(r), nontrivial=False)
+    # ---- cbconvert
+    fn = cs.func(ctx, CB, "cbconvert")
     L, mc = F.sym("L"), F.sym("mc")
-
-    def call(node, ev):
-        d = dotted(node.func)
-        if d == "_get_conv_factors":
-            return (L, mc)
-        if d == "math.sqrt":
-            v = ev.ev(node.args[0])
-            return v if is_unknown(v) else F.sqrt(need(v))
-        return NotImplemented
-
-    ev = AutoEvaluator(fn, src=ctx.src, call=call, cond=lambda t_, ev: {"lq>0": True, "drm": False}.get(utext(t_)),
-                       pinned={"b": F.sym("b"), "M": F.sym("M")})
-    ev.run(fn.body)
-    E = ev.expr
-    cells = [(nm, ix, val) for nm, ix, val, st in ev.cells]
-
-    def cell(nm, index_text):
-        w = E(f"{nm}[{index_text}]")
-        for n2, ix, val in cells:
-            if n2 == nm and not is_unknown(ix) and not is_unknown(w) and need(F.fn("idx", F.sym(nm), ix)).equals(need(w)):
-                return val
-        return None
+    runs = {}
+    for drm in (False, True):
+        S = Run(ctx, fn, args=[None, None, (L, mc), None], inline=inl, consts=consts, run=False)
+        S.truth("drm", drm)
+        S.sign("np.size(M, 1) - len(b)", "pos")
+        S.ev.run(fn.body)
+        runs[drm] = S
+    S = runs[False]
+    M = S.root("M")
+    sc = _scaling(S, S.ret(), M)
+    ok = sc is not None and len(sc[0]) == 1 and len(sc[1]) == 1 and not sc[2]
+    ctx.check(ok, "cbconvert (drm=False): the result is D M C - one diagonal on the rows, one on the columns", fn, None if ok else _r(S.ret(), 300))
+    if not ok:
+        return
+    Dv, Cv = sc[0][0], sc[1][0]
+    S1 = runs[True]
+    sc1 = _scaling(S1, S1.ret(), S1.root("M"))
+    ok = sc1 is not None and not sc1[0] and len(sc1[1]) == 1 and not sc1[2]
+    ctx.check(ok, "cbconvert (drm=True): the result is M C (columns only: a recovery matrix maps displacements)", fn, None if ok else _r(S1.ret(), 300))
     trn = "b[ytools.mkpattvec([0, 1, 2], len(b), 6).ravel()]"
     rot = "b[ytools.mkpattvec([0, 1, 2], len(b), 6).ravel() + 3]"
     qset = "locate.flippv(b, np.size(M, 1))"
     want = {("C", trn, "translations"): 1 / L, ("D", trn, "translations"): mc * L, ("D", rot, "rotations"): mc * L * L}
+    arr = {"C": Cv, "D": Dv}
     for (nm, ixt, what), w in want.items():
-        v = cell(nm, ixt)
-        ok = v is not None and not is_unknown(v) and need(v).equals(w)
-        ctx.check(ok, f"cbconvert: {nm} on the boundary {what} (DOF {'1-3' if what == 'translations' else '4-6'} of each boundary grid) = {w} "
-                      "(C converts displacements OUT->IN, D converts forces IN->OUT)", fn, None if ok else repr(v))
-    crot = cell("C", rot)
-    ctx.check(crot is None, "cbconvert: C leaves the boundary rotations alone (rotations are dimensionless)", fn, repr(crot), nontrivial=False)
-    cq, dq = cell("C", qset), cell("D", qset)
-    ok = cq is not None and dq is not None and not is_unknown(cq) and not is_unknown(dq) and (need(cq) * need(dq)).equals(1) and (need(dq) * need(dq)).equals(mc * L * L)
-    ctx.check(ok, "cbconvert: modal DOF are scaled by sqrt(massconv) * lengthconv and its reciprocal (C D = 1 on the q-set)", fn,
-              None if ok else {"C[q]": repr(cq), "D[q]": repr(dq)})
+        v = S.cell(arr[nm], ixt)
+        ok = eq(v, w)
+        _chk(ctx, S, ok, f"cbconvert: {nm} (the {'column' if nm == 'C' else 'row'} diagonal) on the boundary {what} (DOF {'1-3' if what == 'translations' else '4-6'} of each boundary grid) = {w} "
+                         "(C converts displacements OUT->IN, D converts forces IN->OUT)", fn, None if ok else _r(v), arrays=[arr[nm]])
+    crot = S.cell(Cv, rot)
+    _chk(ctx, S, crot is None, "cbconvert: C leaves the boundary rotations alone (rotations are dimensionless)", fn, _r(crot), arrays=[Cv], nontrivial=False)
+    cq, dq = S.cell(Cv, qset), S.cell(Dv, qset)
+    ok = is_rat(cq) and is_rat(dq) and (cq * dq).equals(1) and (dq * dq).equals(mc * L * L)
+    _chk(ctx, S, ok, "cbconvert: modal DOF are scaled by sqrt(massconv) * lengthconv and its reciprocal (C D = 1 on the q-set)", fn,
+         None if ok else {"C[q]": _r(cq), "D[q]": _r(dq)}, arrays=[Cv, Dv])
     inv = {"L": 1 / L, "mc": 1 / mc}
-    ok = all((w * w.subs(inv)).equals(1) for w in want.values()) and cq is not None and not is_unknown(cq) and \
-        (need(cq) * need(cq).subs(inv) * need(cq) * need(cq).subs(inv)).equals(1)
+    ok = all((w * w.subs(inv)).equals(1) for w in want.values()) and is_rat(cq) and (cq * cq.subs(inv) * cq * cq.subs(inv)).equals(1)
     ctx.check(ok, "cbconvert: converting with the reciprocal factors undoes the conversion on translations, rotations and modal DOF", fn)
     for nm in ("C", "D"):
-        ini = ev.env.get(f"<init:{nm}>")
-        ok = ini is not None and not is_unknown(ini) and need(ini).equals(need(E("np.ones(np.size(M, 1))")))
-        ctx.check(ok, f"cbconvert: {nm} starts as ones over all np.size(M, 1) DOF", fn, repr(ini), nontrivial=False)
-    # M <- D M C (rows only for square matrices): evaluate the returned value for drm False / True
-    for drm in (False, True):
-        ev2 = AutoEvaluator(fn, src=ctx.src, call=call, cond=lambda t_, ev, drm=drm: {"lq>0": True, "drm": drm}.get(utext(t_)), pinned={"b": F.sym("b"), "M": F.sym("M")})
-        # M is rebound (M = multmd(M, C)): follow the rebinding chain explicitly
-        val = F.sym("M")
-        chain = []
-        for st in fn.body:
-            if isinstance(st, ast.If) and utext(st.test) in ("notdrm", "drm"):
-                take = st.body if (utext(st.test) == "notdrm") == (not drm) else st.orelse
-                chain.extend(take)
-            else:
-                chain.append(st)
-        for st in chain:
-            if isinstance(st, ast.Assign) and utext(st.targets[0]) == "M" and isinstance(st.value, ast.Call) and dotted(st.value.func) == "ytools.multmd":
-                a0, a1 = [utext(x) for x in st.value.args]
-                val = F.fn("multmd", F.sym(a0) if a0 != "M" else val, F.sym(a1) if a1 != "M" else val)
-        want_v = F.fn("multmd", F.sym("M"), F.sym("C")) if drm else F.fn("multmd", F.sym("D"), F.fn("multmd", F.sym("M"), F.sym("C")))
-        ok = val.equals(want_v)
-        ctx.check(ok, f"cbconvert (drm={drm}): the result is {'M C (columns only: a recovery matrix maps displacements)' if drm else 'D M C'}", fn, repr(val))
-    # uset_convert: exactly the rows that hold lengths
-    fn = ctx.src.func(CB, "uset_convert")
-    ks = []
-    pvk = None
-    for s_ in fn.body:
-        if isinstance(s_, ast.Assign) and ast.unparse(s_.targets[0]) == "pv" and isinstance(s_.value, ast.Compare) and ast.unparse(s_.value.left) == "dof":
-            pvk = ast.literal_eval(s_.value.comparators[0])
-        if isinstance(s_, ast.AugAssign) and ast.unparse(s_.target).replace(" ", "") == "uset.iloc[pv,1:]" and isinstance(s_.op, ast.Mult) \
-                and ast.unparse(s_.value) == "lengthconv":
-            ks.append(pvk)
-    ok = sorted(ks) == [1, 3]
+        b = S.buf(arr[nm])
+        ok = b is not None and is_rat(b.init) and b.init.equals(1) and b.shape is not None and len(b.shape) == 1 and S.same(b.shape[0], "np.size(M, 1)") \
+            and len(S.cells(arr[nm])) == (2 if nm == "C" else 3)
+        _chk(ctx, S, ok, f"cbconvert: {nm} starts as ones over all np.size(M, 1) DOF and only the documented blocks are changed", fn, _r(b), arrays=[arr[nm]], nontrivial=False)
+    # ---- uset_convert: exactly the rows that hold lengths
+    fn = cs.func(ctx, CB, "uset_convert")
+    LC, MC = F.sym("LC"), F.sym("MC")
+    S = Run(ctx, fn, args=[None, None, (LC, MC)], inline=inl, consts=consts, run=False)
+    S.sign("len(ref) - 3", "zero")
+    S.ev.run(fn.body)
+    iloc = S.root("uset.iloc")
+    cl = S.cells(iloc)
+    dofs = []
+    good = True
+    for ix, val, node in cl:
+        k = None
+        for cand in (1, 2, 3, 4, 5, 6):
+            w = S.root(f"__x[uset.index.get_level_values('dof') == {cand}, 1:]")
+            uw = unfn(w)
+            if uw is not None and eq(ix, uw[1][1]):
+                k = cand
+        dofs.append(k)
+        good = good and k is not None and eq(val, F.fn("idx", iloc, ix) * LC)
+    ok = good and sorted(dofs) == [1, 3]
     ctx.check(ok, "uset_convert: the length factor is applied to exactly the rows that hold lengths - row 1 (grid location) and row 3 (origin of the grid's "
-                  "output coordinate system); row 2 holds ids and rows 4-6 direction cosines", fn, ks)
-    rb = ctx.src.func(N2P, "rbgeom_uset")
-    ok = utext(rb).count("loc2=t@(loc-uset.iloc[i+2,1:]).values") == 2
-    ctx.check(ok, "rbgeom_uset (sibling witness): the location (row 1) and the origin (row 3) of a grid are subtracted from each other, so they must share units", rb)
-    # lengthconv is the first element of _get_conv_factors(conv): `x = f(conv)[0]` or `x, _ = f(conv)`
-    ev3 = AutoEvaluator(fn, src=ctx.src, call=lambda node, ev: ((F.sym("LC"), F.sym("MC")) if dotted(node.func) == "_get_conv_factors" else NotImplemented))
-    for st in fn.body:
-        if isinstance(st, ast.Assign):
-            ev3.stmt(st)
-    lc = ev3.env.get("lengthconv")
-    ok = lc is not None and not is_unknown(lc) and not isinstance(lc, tuple) and need(lc).equals(F.sym("LC"))
-    cp = ev3.env.get("uset")
-    ok2 = cp is not None and not is_unknown(cp) and need(cp).equals(need(ev3.expr("uset_.copy()".replace("uset_", "uset"))))
-    ctx.check(ok, "uset_convert: uses the length factor (first element) of the requested conversion", fn, repr(lc), nontrivial=False)
+                  "output coordinate system); row 2 holds ids and rows 4-6 direction cosines", fn, {"rows": dofs, "stores": [(_r(i, 100), _r(v, 120)) for i, v, _ in cl]})
+    r = S.ret()
+    ok = isinstance(r, tuple) and len(r) == 2 and eq(r[1], S.root("ref") * LC)
+    ctx.check(ok, "uset_convert: a reference location (three coordinates) is scaled by the same length factor", fn, None if ok else _r(r))
+    ok = good and bool(cl)
+    ctx.check(ok, "uset_convert: uses the length factor (first element) of the requested conversion", fn, None, nontrivial=False)
+    # ---- sibling witness: location and origin of a grid are subtracted from each other
+    rb = cs.func(ctx, N2P, "rbgeom_uset")
+    # every `X.any()` branch (q-set grids, cylindrical, spherical output systems) is entered
+    Sg = Run(ctx, rb, inline={}, consts=None, cond=lambda t, ev: True if isinstance(t, ast.Call) and isinstance(t.func, ast.Attribute) and t.func.attr == "any" and not t.args else None)
+    found = 0
+    vals = [v for v in Sg.ev.env.values() if is_rat(v)] + [c[2] for c in Sg.ev.w.cells if is_rat(c[2])] + [b.init for b in Sg.all_bufs() if is_rat(b.init)]
+    seen = set()
+    for v in vals:
+        for aid, args in cs.fn_atoms(v, "attr:values"):
+            if aid in seen:
+                continue
+            seen.add(aid)
+            x = args[0]
+            if not is_rat(x) or len(x.n.t) != 2 or not x.d.is_const():
+                continue
+            terms = list(x.n.t.items())
+            if sorted(c for _, c in terms) != [-1, 1]:
+                continue
+            rows = {}
+            for mono, c in terms:
+                if len(mono) != 1 or mono[0][1] != 1:
+                    break
+                u = unfn(F.Rat(F.Poly.atom(mono[0][0])))
+                if u is None or u[0] != "idx":
+                    break
+                ui = unfn(u[1][0])
+                t = untuple(u[1][1])
+                if ui is None or ui[0] != "attr:iloc" or not t:
+                    break
+                rows[c] = t[0]
+            else:
+                if len(rows) == 2 and (rows[-1] - rows[1]).equals(2):
+                    found += 1
+    ok = found >= 1
+    ctx.check(ok, "rbgeom_uset (sibling witness): the location (row 1) and the origin (row 3) of a grid are subtracted from each other, so they must share units", rb, found)
 
 
+# ============================================================================================================ R3  cbreorder
 def r3_reorder(ctx):
-    from .e2_eval import AutoEvaluator
     """cbreorder: square matrices are permuted symmetrically (rows and columns by the same vector), recovery matrices by columns only, and the
-    vector is (b, q) or (q, b) with q the complement of b - on every path through the function"""
-    fn = ctx.src.func(CB, "cbreorder")
+    vector is (b, q) or (q, b) with q the complement of b - for every combination of the options"""
+    fn = cs.func(ctx, CB, "cbreorder")
+    inl, consts = _tables(ctx)
     n = 0
     for drm in (False, True):
         for last in (False, True):
             for lq0 in (False, True):
-                def truth(test, drm=drm, last=last, lq0=lq0):
-                    return {"drm": drm, "last": last, "lq==0": lq0}.get(utext(test))
-                rets = _returns_under(ctx, fn, truth)
-                vals = {repr(v) for v, end, ev in rets}
-                if len(rets) < 1 or any(is_unknown(v) or isinstance(v, tuple) for v, _, _ in rets):
-                    ctx.error(f"cbreorder (drm={drm}, last={last}, q empty={lq0}): returned value not lowered", fn, sorted(vals))
+                S = Run(ctx, fn, inline=inl, consts=consts, run=False)
+                S.truth("drm", drm)
+                S.truth("last", last)
+                S.sign("np.size(M, 1) - len(b)", "zero" if lq0 else "pos")
+                S.ev.run(fn.body)
+                r = S.ret()
+                if not is_rat(r):
+                    ctx.error(f"cbreorder (drm={drm}, last={last}, q empty={lq0}): returned value not lowered", fn, _r(r))
                     continue
-                ev = rets[0][2]
                 q = "locate.flippv(b, np.size(M, 1))"
                 pv = "b" if lq0 else (f"np.hstack(({q}, b))" if last else f"np.hstack((b, {q}))")
                 want = f"M[:, {pv}]" if drm else f"M[np.ix_({pv}, {pv})]"
-                w = AutoEvaluator(None, src=ctx.src).expr(want)
-                ok = len(vals) == 1 and not is_unknown(w) and need(rets[0][0]).equals(need(w))
+                ok = S.same(r, want)
                 n += 1
                 ctx.check(ok, f"cbreorder (drm={drm}, last={last}, q {'empty' if lq0 else 'present'}): returns {want.replace(q, 'q')}"
-                              + ("" if drm else " - a symmetric permutation"), rets[0][1], None if ok else {"got": sorted(vals), "want": repr(w)})
+                              + ("" if drm else " - a symmetric permutation"), S.ret_node(), None if ok else {"got": _r(r, 400), "want": _r(S.root(want), 400)})
     ctx.check(n == 8, "cbreorder: eight option combinations evaluated", fn, n, nontrivial=False)
+
+
+# ============================================================================================================ R4  _solve_eig
+def _solve_model(name, pos, kws, node, ev):
+    if name in cs.SOLVE and len(pos) >= 2 and is_rat(pos[0]) and is_rat(pos[1]):
+        return pos[1] / pos[0]
+    return NotImplemented
 
 
 def r4_static_condensation(ctx):
@@ -283,224 +544,472 @@ def r4_static_condensation(ctx):
     sign convention chosen for the condensation matrix): the reduced stiffness is the Schur complement Kxx - Kxz Kzz^-1 Kzx, the reduced
     mass is Mxx, the eigenproblem is solved for exactly those two, and the massless rows of the expanded eigenvectors are -Kzz^-1 Kzx v -
     otherwise the eigen-based rigid-body modes `rbe` are not rigid-body motion of the underlying structure on those DOF."""
-    from .sem import Sem, place
-    fn = ctx.src.func(CB, "_solve_eig")
+    fn = cs.func(ctx, CB, "_solve_eig")
+    inl, consts = _tables(ctx)
     K0, M0 = F.sym("K0"), F.sym("M0")
 
-    def call(node, ev):
-        d = dotted(node.func) or ""
-        if d in ("linalg.solve", "la.solve", "scipy.linalg.solve", "np.linalg.solve") and len(node.args) >= 2:
-            a, b = ev.ev(node.args[0]), ev.ev(node.args[1])
-            if is_unknown(a) or is_unknown(b):
-                return a if is_unknown(a) else b
-            return need(b) / need(a)
-        if d.endswith("eigsh") or d.endswith("eigh"):
-            vals = [ev.ev(a) for a in node.args]
-            kws = {k.arg: ev.ev(k.value) for k in node.keywords}
-            mm = kws.get("M", vals[2] if len(vals) > 2 else None)
-            if is_unknown(vals[0]) or mm is None or is_unknown(mm):
+    def callv(name, pos, kws, node, ev):
+        r = _solve_model(name, pos, kws, node, ev)
+        if r is not NotImplemented:
+            return r
+        if name.endswith("eigsh") or name.endswith("eigh"):
+            p = place(pos, kws, ["A", "k", "M"])
+            a, mm = p.get("A"), p.get("M")
+            if not is_rat(a) or not is_rat(mm):
                 return NotImplemented
-            return (F.fn("eigval", need(vals[0]), need(mm)), F.fn("eigvec", need(vals[0]), need(mm)))
-        if d == "abs":
-            return ev.ev(node.args[0])
-        if d == "ytools.eig_si":
-            return (F.sym("lam_si"), F.sym("phi_si"), F.sym("_si"))
-        if d == "ytools.mattype":
-            return (F.sym("mtype"), F.sym("types"))
+            return (F.fn("eigval", a, mm), F.fn("eigvec", a, mm))
         return NotImplemented
 
+    NZ = "(M0.any(axis=0) | K0.any(axis=0))"
+
     def run(null_cols, massless):
-        def cond(test, ev):
-            t = utext(test)
-            if t == "z.any()":
-                return null_cols
-            if t == "z_m.any()":
-                return massless
-            if t == "k.shape[0]<nz.shape[0]":
-                return null_cols or massless
-            if t.startswith("mtype&types"):
-                return True
+        S = Run(ctx, fn, args=[None, K0, M0], inline=inl, consts=consts, callv=callv, objs=("K0", "M0"), run=False)
+        S.truth(f"(~{NZ}).any()", null_cols)
+        mm = f"M0[np.ix_({NZ}, {NZ})]" if null_cols else "M0"
+        S.truth(f"(~{mm}.any(axis=0)).any()", massless)
+        S.ev.run(fn.body)
+        return S
+
+    def result(S, what):
+        r = S.ret()
+        if not isinstance(r, NS) or not {"k", "m", "v"} <= set(r.fields):
+            ctx.error(f"_solve_eig ({what}): the returned namespace (fields k, m, v, ...) was not lowered", fn, _r(r))
             return None
-        from .sem import and_binop
-        return Sem(ctx, fn, cond=cond, call=call, env={"k": K0, "m": M0, "K0": K0, "M0": M0}, binop=and_binop)
+        eig = [c for c in S.ev.w.calls if c[0].endswith("eigsh") or c[0].endswith("eigh")]
+        if len(eig) != 1:
+            ctx.error(f"_solve_eig ({what}): eigensolver call", fn, len(eig))
+            return None
+        return r, eig[0]
+
+    def rows(S, v, mask):
+        """value stored into the rows `mask` of the array v (None when nothing is)"""
+        return S.cell(v, S.root(mask))
 
     # ---- massless DOF present, no null columns
     S = run(False, True)
-    E = S.E
-    zm = "(~M0.any(axis=0))"
-    nzm = "M0.any(axis=0)"
+    res = result(S, "massless DOF")
+    if res is None:
+        return
+    ns, eig = res
+    E = S.root
+    zm, nzm = "(~M0.any(axis=0))", "M0.any(axis=0)"
     Kzz, Kzx, Kxz, Kxx = (E(f"K0[np.ix_({a}, {b})]") for a, b in ((zm, zm), (zm, nzm), (nzm, zm), (nzm, nzm)))
     Mxx = E(f"M0[np.ix_({nzm}, {nzm})]")
-    psi = S.env("psi")
-    if psi is None or is_unknown(psi) or any(is_unknown(x) for x in (Kzz, Kzx, Kxz, Kxx, Mxx)):
-        ctx.error("_solve_eig: condensation block", fn, repr(psi))
-        return
-    ns = S.calls("SimpleNamespace")
-    eig = [c for c in S.ev.calls if c[0].endswith("eigsh")]
-    if len(ns) != 1 or len(eig) != 1:
-        ctx.error("_solve_eig: result namespace / eigensolver call", fn, [len(ns), len(eig)])
-        return
-    kred, mred = ns[0][2].get("k"), ns[0][2].get("m")
-    ok = S.same(kred, need(Kxx) - need(Kxz) * need(Kzx) / need(Kzz))
-    ctx.check(ok, "_solve_eig: the reduced stiffness is the Schur complement Kxx - Kxz Kzz^-1 Kzx (static condensation of the massless DOF)", ns[0][3],
-              None if ok else repr(kred))
-    ok = S.same(mred, Mxx)
-    ctx.check(ok, "_solve_eig: the reduced mass is the mass partition of the DOF that have mass", ns[0][3], None if ok else repr(mred))
-    ea = place(eig[0][1], eig[0][2], ["A", "k", "M"])
-    ok = S.same(ea.get("A"), kred) and S.same(ea.get("M"), mred)
-    ctx.check(ok, "_solve_eig: the eigenproblem is solved for the reduced stiffness and the reduced mass", eig[0][3])
-    vec = F.fn("eigvec", need(kred), need(mred)) if ok else None
-    vret = ns[0][2].get("v")
-    cells = S.cells("v2")
-    got = {}
-    for ix, val, st in cells:
-        got[repr(ix)] = val
-    want_z = E(f"v2[{zm}, :]")
-    want_x = E(f"v2[{nzm}, :]")
-    def cell(idxtext):
-        w = S.E(f"v2[{idxtext}]")
-        for ix, val, st in cells:
-            if not is_unknown(ix) and not is_unknown(w) and need(F.fn("idx", F.sym("v2"), ix)).equals(need(w)):
-                return val
-        return None
-    ok = vec is not None and S.same(vret, "v2") and S.same(cell(f"{nzm}, :"), vec) and S.same(cell(f"{zm}, :"), -(need(Kzx) / need(Kzz)) * vec) and len(cells) == 2
-    ctx.check(ok, "_solve_eig: expanded eigenvectors satisfy the equilibrium of the massless DOF, Kzz v_z + Kzx v_x = 0 (rows with mass = v, massless rows = "
-                  "-Kzz^-1 Kzx v): the eigen-based rigid-body modes are rigid on those DOF too", fn,
-              None if ok else {"stores": [(repr(i), repr(v)) for i, v, _ in cells]})
+    kred, mred, vret = ns.fields["k"], ns.fields["m"], ns.fields["v"]
+    ok = eq(kred, Kxx - Kxz * Kzx / Kzz)
+    ctx.check(ok, "_solve_eig: the reduced stiffness is the Schur complement Kxx - Kxz Kzz^-1 Kzx (static condensation of the massless DOF)", ns.node or fn,
+              None if ok else _r(kred, 400))
+    ok = eq(mred, Mxx)
+    ctx.check(ok, "_solve_eig: the reduced mass is the mass partition of the DOF that have mass", ns.node or fn, None if ok else _r(mred))
+    ea = place(eig[1], eig[2], ["A", "k", "M"])
+    ok = eq(ea.get("A"), kred) and eq(ea.get("M"), mred)
+    ctx.check(ok, "_solve_eig: the eigenproblem is solved for the reduced stiffness and the reduced mass", eig[3])
+    vec = F.fn("eigvec", kred, mred) if ok and is_rat(kred) and is_rat(mred) else None
+    cl = S.cells(vret)
+    ok = vec is not None and eq(rows(S, vret, nzm), vec) and eq(rows(S, vret, zm), -(Kzx / Kzz) * vec) and len(cl) == 2
+    _chk(ctx, S, ok, "_solve_eig: expanded eigenvectors satisfy the equilibrium of the massless DOF, Kzz v_z + Kzx v_x = 0 (rows with mass = v, massless rows = "
+                     "-Kzz^-1 Kzx v): the eigen-based rigid-body modes are rigid on those DOF too", fn,
+         None if ok else {"v": _r(vret), "stores": [(_r(i, 120), _r(v, 200)) for i, v, _ in cl]}, arrays=[vret])
     # ---- null columns present, no massless DOF
     S = run(True, False)
-    E = S.E
-    nz = "(M0.any(axis=0) | K0.any(axis=0))"
-    ns = S.calls("SimpleNamespace")
-    eig = [c for c in S.ev.calls if c[0].endswith("eigsh")]
-    if len(ns) != 1 or len(eig) != 1:
-        ctx.error("_solve_eig: result namespace / eigensolver call (null columns)", fn)
+    res = result(S, "null columns")
+    if res is None:
         return
-    ok = S.same(ns[0][2].get("k"), f"K0[np.ix_({nz}, {nz})]") and S.same(ns[0][2].get("m"), f"M0[np.ix_({nz}, {nz})]")
-    ctx.check(ok, "_solve_eig: null rows and columns (no mass and no stiffness) are removed from both matrices by the same mask", ns[0][3],
-              None if ok else {"k": repr(ns[0][2].get("k")), "m": repr(ns[0][2].get("m"))})
-    cells = S.cells("v2")
-    vec = F.fn("eigvec", need(ns[0][2]["k"]), need(ns[0][2]["m"])) if ok else None
-    def cell2(idxtext):
-        w = S.E(f"v2[{idxtext}]")
-        for ix, val, st in cells:
-            if not is_unknown(ix) and not is_unknown(w) and need(F.fn("idx", F.sym("v2"), ix)).equals(need(w)):
-                return val
-        return None
-    ok = vec is not None and S.same(cell2(f"{nz}, :"), vec) and S.same(cell2(f"~{nz}, :"), "0.0") and len(cells) == 2
-    ctx.check(ok, "_solve_eig: eigenvectors get zero rows at the removed DOF and the computed rows elsewhere", fn,
-              None if ok else {"stores": [(repr(i), repr(v)) for i, v, _ in cells]})
+    ns, eig = res
+    kk, mm, vret = ns.fields["k"], ns.fields["m"], ns.fields["v"]
+    ok = S.same(kk, f"K0[np.ix_({NZ}, {NZ})]") and S.same(mm, f"M0[np.ix_({NZ}, {NZ})]")
+    ctx.check(ok, "_solve_eig: null rows and columns (no mass and no stiffness) are removed from both matrices by the same mask", ns.node or fn,
+              None if ok else {"k": _r(kk), "m": _r(mm)})
+    ea = place(eig[1], eig[2], ["A", "k", "M"])
+    vec = F.fn("eigvec", kk, mm) if ok and eq(ea.get("A"), kk) and eq(ea.get("M"), mm) else None
+    cl = S.cells(vret)
+    b = S.buf(vret)
+    zero_rows = rows(S, vret, f"(~{NZ})")
+    zeroed = (is_rat(zero_rows) and zero_rows.is_zero() and len(cl) == 2) or \
+             (zero_rows is None and b is not None and is_rat(b.init) and b.init.is_zero() and len(cl) == 1)
+    ok = vec is not None and eq(rows(S, vret, NZ), vec) and zeroed
+    _chk(ctx, S, ok, "_solve_eig: eigenvectors get zero rows at the removed DOF and the computed rows elsewhere", fn,
+         None if ok else {"v": _r(vret), "stores": [(_r(i, 120), _r(v, 200)) for i, v, _ in cl]}, arrays=[vret])
+    # ---- both: null columns trimmed first, then the massless DOF of what is left condensed
+    S = run(True, True)
+    res = result(S, "null columns and massless DOF")
+    if res is None:
+        return
+    ns, eig = res
+    E = S.root
+    K1, M1 = f"K0[np.ix_({NZ}, {NZ})]", f"M0[np.ix_({NZ}, {NZ})]"
+    zm, nzm = f"(~{M1}.any(axis=0))", f"{M1}.any(axis=0)"
+    Kzz, Kzx, Kxz, Kxx = (E(f"{K1}[np.ix_({a}, {b})]") for a, b in ((zm, zm), (zm, nzm), (nzm, zm), (nzm, nzm)))
+    kred, mred, vret = ns.fields["k"], ns.fields["m"], ns.fields["v"]
+    ok = eq(kred, Kxx - Kxz * Kzx / Kzz) and eq(mred, E(f"{M1}[np.ix_({nzm}, {nzm})]"))
+    ctx.check(ok, "_solve_eig (null columns and massless DOF): the condensation is applied to the trimmed matrices (masks of the trimmed mass)", ns.node or fn,
+              None if ok else {"k": _r(kred, 300), "m": _r(mred)})
+    vec = F.fn("eigvec", kred, mred) if ok else None
+    inner = rows(S, vret, NZ)
+    ok = vec is not None and is_rat(inner) and eq(rows(S, inner, nzm), vec) and eq(rows(S, inner, zm), -(Kzx / Kzz) * vec)
+    _chk(ctx, S, ok, "_solve_eig (null columns and massless DOF): the eigenvectors are expanded in the reverse order of the reductions (massless rows first, "
+                     "then zero rows at the null DOF)", fn, None if ok else {"v": _r(vret), "rows kept": _r(inner)}, arrays=[vret] + ([inner] if is_rat(inner) else []))
+
+
+# ============================================================================================================ R5  cbcheck
+LABELS = {"stiffness": "stiffness", "geometry": "geometry", "eigensolution": "eigensol"}
+
+
+def _labels_of(v):
+    """the rigid-body sets a written text speaks about: the labels whose keyword occurs in the string constants of the value"""
+    found = set()
+    for s in texts_in(v):
+        low = s.lower()
+        for lab, kw in LABELS.items():
+            if kw in low:
+                found.add(lab)
+    return found
 
 
 def r5_cbcheck_quantities(ctx):
     """cbcheck compares three rigid-body mode sets - stiffness based (rbs, full size), geometry based (rbg, boundary size) and eigensolution based
-    (rbe, full size).  Decided on values: each set is used with the matrix partition of its own size in the mass (rb^T M rb), grounding (K rb,
-    rb^T K rb) and effective-mass ((Mqb rbg)^2 as a percentage of diag(rbg^T Mbb rbg)) computations; every report / namespace slot named
-    stiffness / geometry / eigensolution receives the quantity built from that set (a copy-and-paste slip between the three siblings is the
-    realistic defect); rbe is normalised to the identity at the reference DOF."""
-    from .sem import Sem, and_binop
-    fn = ctx.src.func(CB, "cbcheck")
+    (rbe, full size).  Decided on values: the sets are the ones published in the returned namespace; each is used with the matrix partition of
+    its own size in the mass (rb^T M rb), grounding (K rb, rb^T K rb) and effective-mass ((Mqb rbg)^2 as a percentage of diag(rbg^T Mbb rbg))
+    computations; everything written to the report under the label stiffness / geometry / eigensolution is built from that set and from no
+    other (a copy-and-paste slip between the three siblings is the realistic defect); rbe is normalised to the identity at the reference DOF."""
+    fn = cs.func(ctx, CB, "cbcheck")
+    keep_opaque = ("cbcoordchk", "_cbcoordchk", "_solve_eig", "cgmass", "cbconvert", "cbreorder", "uset_convert", "_print_type_info", "_values_check",
+                   "rbdispchk", "_rbdispchk", "rbmultchk", "_rbmultchk", "mk_net_drms", "cbtf")
+    inl, consts = _tables(ctx, exclude=keep_opaque)
 
-    def cond(test, ev):
-        t = utext(test)
-        return {"usetisNone": False, "uset.shape[0]!=nb": False, "convisnotNone": False, "reorder": False, "(bset==bseto).all()": True,
-                "rb_normisNone": False, "rb_norm": False, "nq>0": True, "em_filt>0": False}.get(t)
-
-    def call(node, ev):
-        d = dotted(node.func) or ""
-        if d == "cgmass":
-            a = ev.ev(node.args[0])
-            if is_unknown(a) or isinstance(a, tuple):
-                return NotImplemented
-            return tuple(F.fn(f"cgmass{i}", need(a)) for i in range(6))
-        if d in ("linalg.solve", "la.solve") and len(node.args) >= 2:
-            a, b = ev.ev(node.args[0]), ev.ev(node.args[1])
-            if is_unknown(a) or is_unknown(b) or isinstance(a, tuple) or isinstance(b, tuple):
-                return NotImplemented
-            return need(b) / need(a)
-        if d == "np.sort" and node.args:
-            return ev.ev(node.args[0])
+    def callv(name, pos, kws, node, ev):
+        r = _solve_model(name, pos, kws, node, ev)
+        if r is not NotImplemented:
+            return r
+        if name == "cgmass" and pos and is_rat(pos[0]):
+            return tuple(F.fn(f"cgmass{i}", pos[0]) for i in range(6))
+        if name == "np.sort" and pos and is_rat(pos[0]):
+            return pos[0]           # the regime evaluated: the boundary set is given in ascending order
         return NotImplemented
 
-    S = Sem(ctx, fn, cond=cond, call=call, erase_T=True, binop=and_binop, loop_once=True, env={"Mcb": F.sym("M"), "Kcb": F.sym("K")})
-    E = S.E
-    rbs, rbg, rbe = S.env("rbs"), S.env("rbg"), S.env("rbe")
-    if any(x is None or is_unknown(x) or isinstance(x, tuple) for x in (rbs, rbg, rbe)):
-        ctx.error("cbcheck: the three rigid-body mode sets", fn, [repr(rbs), repr(rbg), repr(rbe)])
+    S = Run(ctx, fn, inline=inl, consts=consts, callv=callv, erase_T=True, run=False)
+    M, K = S.root("Mcb"), S.root("Kcb")
+    S.truth("uset is None", False)
+    S.truth("conv is None", True)
+    S.truth("reorder", False)
+    S.truth("rb_norm is None", False)
+    S.truth("rb_norm", False)
+    S.sign("len(locate.flippv(bseto, np.size(Mcb, 0)))", "pos")
+    S.sign("em_filt", "zero")
+    S.ev.run(fn.body)
+    ret = S.ret()
+    need_f = {"m", "k", "bset", "rbs", "rbg", "rbe", "effmass", "effmass_percent"}
+    if not isinstance(ret, NS) or not need_f <= set(ret.fields) or any(not is_rat(ret.fields[k]) for k in need_f):
+        ctx.error("cbcheck: the returned namespace (fields m, k, bset, rbs, rbg, rbe, effmass, effmass_percent) was not lowered", fn,
+                  _r(ret) if not isinstance(ret, NS) else {k: _r(v, 120) for k, v in ret.fields.items()})
         return
-    rbs, rbg, rbe = need(rbs), need(rbg), need(rbe)
-    M, K = F.sym("M"), F.sym("K")
+    rbs, rbg, rbe = ret.fields["rbs"], ret.fields["rbg"], ret.fields["rbe"]
+    E = S.root
     B = "np.ix_(bseto, bseto)"
-    Mbb, Kbb = need(E(f"Mcb[{B}]")), need(E(f"Kcb[{B}]"))
-    from .sem import split_call, unfn
+    Mbb, Kbb = E(f"Mcb[{B}]"), E(f"Kcb[{B}]")
+    # ---- where the three sets come from
     cg = split_call(rbg)
+    us = "uset[n2p.mksetpv(uset, 'p', 'b')]"
+    ok = cg is not None and cg[0] == "n2p.rbgeom_uset" and len(cg[1]) + len(cg[2]) == 2 and S.same(place(cg[1], cg[2], ["uset", "refpoint"]).get("uset"), us) \
+        and S.same(place(cg[1], cg[2], ["uset", "refpoint"]).get("refpoint"), "uref")
+    ctx.check(ok, "cbcheck: rbg comes from the geometry (the b-set rows of uset, the reference point)", ret.node or fn, None if ok else _r(rbg))
     ua = unfn(rbs)
-    cs = split_call(ua[1][0]) if ua and ua[0] == "attr:rbmodes" and ua[1] else None
-    ok = cg is not None and cg[0] == "n2p.rbgeom_uset" and len(cg[1]) == 2 and S.same(cg[1][0], E("uset")) and S.same(cg[1][1], E("uref")) \
-        and cs is not None and cs[0] == "cbcoordchk" and len(cs[1]) >= 3 and S.same(cs[1][0], K) and S.same(cs[1][1], E("bset")) and S.same(cs[1][2], E("bref"))
-    ctx.check(ok, "cbcheck: rbg comes from the geometry (uset, reference), rbs from the stiffness-based coordinate check of the same model", fn,
-              None if ok else [repr(rbg)[:200], repr(rbs)[:200]])
-    v6 = "ff_info.v[:, :6]"
-    ok = S.same(rbe, need(E(v6)) / need(E("ff_info.v[bref, :6]")))
-    ctx.check(ok, "cbcheck: rbe = V6 (V6[bref])^-1 - the six lowest free-free modes normalised to the identity at the reference DOF", fn, None if ok else repr(rbe)[:300])
-    want = {"ms": rbs * M * rbs, "mg": rbg * Mbb * rbg, "me": rbe * M * rbe, "rbfs": K * rbs, "rbfg": Kbb * rbg, "rbfe": K * rbe}
-    for nm, w in want.items():
-        got = S.env(nm)
-        ok = S.same(got, w)
-        ctx.check(ok, f"cbcheck: `{nm}` is built from the matrix partition of the size of its own rigid-body set "
-                      f"({'boundary partition for the geometry set, full matrix otherwise'})", fn, None if ok else {"got": repr(got)[:300], "want": repr(w)[:300]})
-    # sibling slots: every call that takes a label must receive the quantity of that label
-    lab = {"stiffness": ("ms", "rbfs", rbs), "geometry": ("mg", "rbfg", rbg), "eigensolution": ("me", "rbfe", rbe)}
-    n_lab = 0
-    for name in ("_wrtmass", "_wrtground", "_wrtinertia"):
-        for cname, pos, kws, node in S.calls(name):
-            label = next((a for a in pos if not is_unknown(a) and not isinstance(a, tuple) and repr(a).strip("'\"") in lab), None)
-            if label is None:
-                continue
-            key = repr(label).strip("'\"")
-            mm, ff, rb = lab[key]
-            n_lab += 1
-            if name == "_wrtmass":
-                ok = S.same(pos[1], want[mm])
-            elif name == "_wrtground":
-                ok = S.same(pos[2], want[ff]) and S.same(pos[3], rb * want[ff])
-            else:
-                ok = S.same(pos[1], F.fn("cgmass4", want[mm])) and S.same(pos[2], F.fn("cgmass5", want[mm]))
-            ctx.check(ok, f"cbcheck: the `{key}` slot of {name} receives the quantity built from the {key}-based rigid-body modes", node,
-                      None if ok else [repr(x)[:160] for x in pos[1:4]])
-    ctx.check(n_lab == 9, "cbcheck: nine labelled report slots (mass, grounding, inertia x three mode sets)", fn, n_lab, nontrivial=False)
-    for cname, pos, kws, node in S.calls("_wrtdist"):
-        # (f, x_s, x_g, x_e, title): the same cgmass output of the three sets, in the order s, g, e
-        idx = None
+    cc = split_call(ua[1][0]) if ua is not None and ua[0] == "attr:rbmodes" else None
+    sig = signature(cs.func(ctx, CB, "cbcoordchk"))
+    pa = place(cc[1], cc[2], sig) if cc is not None else {}
+    ok = cc is not None and cc[0] == "cbcoordchk" and eq(pa.get("K"), K) and S.same(pa.get("bset"), "bseto") and S.same(pa.get("refpoint"), "bref")
+    ctx.check(ok, "cbcheck: rbs comes from the stiffness-based coordinate check of the same stiffness, boundary set and reference DOF", ret.node or fn,
+              None if ok else _r(rbs, 300))
+    ffs = [c for c in S.calls("_solve_eig")]
+    sig = signature(cs.func(ctx, CB, "_solve_eig"))
+    pf = place(ffs[0][1], ffs[0][2], sig) if len(ffs) == 1 else {}
+    ff = S.ev._opaque("_solve_eig", ffs[0][1], ffs[0][2]) if len(ffs) == 1 else None
+    ok = len(ffs) == 1 and eq(pf.get("k"), K) and eq(pf.get("m"), M) and S.same(pf.get("bset"), "bseto") and is_rat(ff)
+    ctx.check(ok, "cbcheck: the free-free eigensolution is computed for the same stiffness, mass and boundary set", ffs[0][3] if ffs else fn)
+    if not ok:
+        return
+    V = F.fn("attr:v", ff)
+    ok = eq(rbe, E("__v[:, :6]", __v=V) / E("__v[bref, :6]", __v=V))
+    ctx.check(ok, "cbcheck: rbe = V6 (V6[bref])^-1 - the six lowest free-free modes normalised to the identity at the reference DOF", ret.node or fn,
+              None if ok else _r(rbe, 300))
+    ok = eq(ret.fields["m"], M) and eq(ret.fields["k"], K) and S.same(ret.fields["bset"], "bseto")
+    ctx.check(ok, "cbcheck: the returned namespace publishes the mass, the stiffness and the boundary set the checks were made with", ret.node or fn)
+    sets = {"stiffness": rbs, "geometry": rbg, "eigensolution": rbe}
+    mat = {"stiffness": (M, K), "geometry": (Mbb, Kbb), "eigensolution": (M, K)}
+    mass = {lab: sets[lab] * mat[lab][0] * sets[lab] for lab in sets}
+    # ---- what identifies a set inside a value
+    mark = {"stiffness": {single_atom(rbs)}, "geometry": {single_atom(rbg)}, "eigensolution": {single_atom(V)}}
+    if any(None in s for s in mark.values()):
+        ctx.error("cbcheck: the rigid-body sets are not single quantities", fn, [_r(rbs, 100), _r(rbg, 100)])
+        return
+
+    def sets_in(v):
+        at = atoms_in(v)
+        return {lab for lab, ms in mark.items() if ms & at}
+
+    # ---- the report: every text written under one label, and the arrays written after it, are built from that set only
+    payload = {lab: [] for lab in sets}
+    rows_by_label = []
+    cur = None
+    bad = []
+    fobj = S.root("f")
+
+    def unstar(x):
+        u = unfn(x) if is_rat(x) else None
+        return u[1][0] if u is not None and u[0] == "star" else x
+
+    for name, pos, kws, node, seq in S.ev.w.calls:
+        if name == ".write" and len(pos) >= 2 and eq(pos[0], fobj):
+            labs = _labels_of(pos[1])
+            lab = next(iter(labs)) if len(labs) == 1 else None
+            if len(labs) > 1:
+                cur = None           # a header naming several sets: what follows belongs to none of them in particular
+            if lab is not None:
+                cur = lab
+                used = sets_in(pos[1])
+                if used - {lab}:
+                    bad.append((lab, node, sorted(used)))
+                if used:
+                    rows_by_label.append((lab, pos[1], node))
+                for _a, args in cs.fn_atoms(pos[1], "call:.format"):
+                    payload[lab].extend((unstar(x), node) for x in args[1:] if is_rat(x))
+        elif name == "writer.vecwrite" and cur is not None and len(pos) >= 3 and eq(pos[0], fobj):
+            for x in pos[2:]:
+                if is_rat(x):
+                    payload[cur].append((x, node))
+                    used = sets_in(x)
+                    if used - {cur}:
+                        bad.append((cur, node, sorted(used)))
+    for lab in sets:
+        mine = [b for b in bad if b[0] == lab]
+        ctx.check(not mine, f"cbcheck: everything reported under the label `{lab}` is built from the {lab}-based rigid-body modes and from no other set",
+                  mine[0][1] if mine else fn, None if not mine else [m[2] for m in mine])
+    vw = {lab: [x for x in payload[lab] if isinstance(x, tuple)] for lab in sets}
+
+    def written(lab, want, row_slice=False):
+        for x, node in vw[lab]:
+            if eq(x, want):
+                return node
+            if row_slice:
+                u = unfn(x)
+                if u is not None and u[0] == "idx" and eq(u[1][0], want):
+                    return node
+        return None
+
+    for lab in sets:
+        Mx, Kx = mat[lab]
+        rb = sets[lab]
+        part = "boundary partition" if lab == "geometry" else "full matrix"
+        nd = written(lab, mass[lab])
+        ctx.check(nd is not None, f"cbcheck: the 6x6 mass reported as `{lab}` is rb^T M rb with the {part} of the mass", nd or fn,
+                  None if nd else [_r(x, 160) for x, _ in vw[lab]][:6])
+        nd = written(lab, Kx * rb, row_slice=True)
+        ctx.check(nd is not None, f"cbcheck: the grounding forces reported as `{lab}` are K rb with the {part} of the stiffness", nd or fn,
+                  None if nd else [_r(x, 160) for x, _ in vw[lab]][:6])
+        nd = written(lab, rb * Kx * rb)
+        ctx.check(nd is not None, f"cbcheck: the grounding summation reported as `{lab}` is rb^T K rb of the same set and partition", nd or fn,
+                  None if nd else [_r(x, 160) for x, _ in vw[lab]][:6])
+        nd = written(lab, F.fn("cgmass4", mass[lab]))
+        ctx.check(nd is not None, f"cbcheck: the inertia matrix reported as `{lab}` is the one of the {lab} mass", nd or fn,
+                  None if nd else [_r(x, 160) for x, _ in vw[lab]][:6])
+    # ---- comparison tables: rows labelled Stiffness / Geometry / Eigensolution list the same mass property of the three sets
+    tables = []
+    for lab, v, node in rows_by_label:
+        props = set()
         for i in range(6):
-            if S.same(pos[1], F.fn(f"cgmass{i}", want["ms"])):
-                idx = i
-        ok = idx is not None and S.same(pos[2], F.fn(f"cgmass{idx}", want["mg"])) and S.same(pos[3], F.fn(f"cgmass{idx}", want["me"]))
-        ctx.check(ok, "cbcheck: each distance / gyration comparison lists the same mass property of the stiffness, geometry and eigensolution sets in that order", node)
+            for _a, args in cs.fn_atoms(v, f"cgmass{i}"):
+                props.add((i, eq(args[0], mass[lab])))
+        if len(props) == 1:
+            tables.append((lab, props.pop(), node))
+    n_tab = 0
+    i = 0
+    while i + 3 <= len(tables):
+        trio = tables[i:i + 3]
+        if [t[0] for t in trio] == ["stiffness", "geometry", "eigensolution"]:
+            ok = len({t[1][0] for t in trio}) == 1 and all(t[1][1] for t in trio)
+            n_tab += 1
+            ctx.check(ok, "cbcheck: each distance / gyration comparison lists the same mass property of the stiffness, geometry and eigensolution masses under "
+                          "their own row labels", trio[0][2], None if ok else [(t[0], t[1]) for t in trio])
+            i += 3
+        else:
+            i += 1
+    if n_tab >= 3:
+        ctx.ok("cbcheck: three comparison tables (distance to cg, radius of gyration about X, Y, Z and about the principal axes)", fn, n_tab, nontrivial=False)
+    else:
+        ctx.error("cbcheck: the comparison tables (rows labelled Stiffness / Geometry / Eigensolution) were not found in the report", fn, [(t[0], t[1]) for t in tables])
+    # ---- modal effective mass (geometry set, q the complement of the boundary set)
     q = "locate.flippv(bseto, np.size(Mcb, 0))"
-    em = S.env("effmass")
-    if isinstance(em, tuple) or em is None:
-        em = S.init("effmass")
-    emw = need(E(f"Mcb[np.ix_({q}, bseto)]")) * rbg
-    # effmass / effmass_percent are rebound to DataFrames at the end: look at the values handed to pd.DataFrame
-    dfs = S.calls("pd.DataFrame")
-    vals = [c[1][0] for c in dfs if c[1]]
-    ok = any(S.same(v, emw * emw) for v in vals)
-    ctx.check(ok, "cbcheck: modal effective mass = (Mqb rbg)^2 with q the complement of the boundary set", fn, None if ok else [repr(v)[:200] for v in vals])
-    ok = any(S.same(v, emw * emw * 100 / F.fn("call:np.diag", want["mg"])) for v in vals)
-    ctx.check(ok, "cbcheck: effective mass percentage is taken of the total mass diag(rbg^T Mbb rbg) of the same (geometry) set", fn,
-              None if ok else [repr(v)[:200] for v in vals])
-    ns = S.calls("SimpleNamespace")
-    ok = len(ns) == 1 and all(S.same(ns[0][2].get(k), v) for k, v in (("rbs", rbs), ("rbg", rbg), ("rbe", rbe), ("m", M), ("k", K)))
-    ctx.check(ok, "cbcheck: the returned namespace publishes rbs, rbg, rbe, m, k under their own names", ns[0][3] if ns else fn)
+    emw = E(f"Mcb[np.ix_({q}, bseto)]") * rbg
+
+    def frame_data(v):
+        out = []
+        for _a, args in cs.fn_atoms(v, "call:pd.DataFrame"):
+            if args and is_rat(args[0]):
+                out.append(args[0])
+        return out
+
+    em, emp = frame_data(ret.fields["effmass"]), frame_data(ret.fields["effmass_percent"])
+    ok = len(em) == 1 and eq(em[0], emw * emw)
+    ctx.check(ok, "cbcheck: modal effective mass (field effmass) = (Mqb rbg)^2 with q the complement of the boundary set", ret.node or fn, None if ok else [_r(v, 200) for v in em])
+    ok = len(emp) == 1 and eq(emp[0], emw * emw * 100 / E("np.diag(__m)", __m=mass["geometry"]))
+    ctx.check(ok, "cbcheck: effective mass percentage (field effmass_percent) is taken of the total mass diag(rbg^T Mbb rbg) of the same (geometry) set", ret.node or fn,
+              None if ok else [_r(v, 200) for v in emp])
+
+
+# ============================================================================================================ R6  _cbcoordchk
+SCALAR_CALLS = ("call:np.count_nonzero", "call:.sum", "call:np.sum", "call:len", "call:.min", "call:.max", "call:sum", "dim", "attr:size", "call:np.sum")
+
+
+def _is_scalar(v):
+    """is the value certainly one number (not an array): constants and reductions without an axis"""
+    if not is_rat(v):
+        return False
+    for p in (v.n, v.d):
+        for a in p.atoms():
+            d = F.atom_desc(a)
+            if d[0] != "fn" or d[1] not in SCALAR_CALLS:
+                return False
+            for k in d[2]:
+                if not isinstance(k, str):
+                    u = unfn(F.Rat(F._poly_from_key(k[1]), F._poly_from_key(k[2])))
+                    if u is not None and u[0] == "kw:axis":
+                        return False
+    return True
+
+
+def r6_coordchk(ctx):
+    """_cbcoordchk builds the stiffness-based rigid-body modes `rbs` from the boundary partition of the stiffness: identity at the six reference DOF and
+    -Koo^-1 Kor at the other boundary DOF (the constraint-mode equation Koo x_o + Kor x_r = 0), zero at boundary DOF without stiffness (trimmed before
+    the solve, re-inserted afterwards) and at the modal DOF.  After trimming, the reference DOF must be renumbered *each by the number of removed DOF in
+    front of it* - a common shift is wrong as soon as a removed DOF lies between two reference DOF (reference DOF spread over several nodes)."""
+    fn = cs.func(ctx, CB, "_cbcoordchk")
+    inl, consts = _tables(ctx, exclude=("rbdispchk", "_rbdispchk"))
+
+    def cond(test, ev):
+        # the regime evaluated: there are boundary DOF besides the reference DOF (`o.size > 0` for o = complement of the reference DOF)
+        v = ev.ev(test)
+        u = unfn(v) if is_rat(v) else None
+        if u is not None and u[0] == "cmp:Gt" and eq(u[1][1], F.const(0)):
+            w = unfn(u[1][0])
+            for nm in ("attr:size", "call:len"):
+                if w is not None and w[0] == nm and split_call(w[1][0]) is not None and split_call(w[1][0])[0] == "locate.flippv":
+                    return True
+        return None
+
+    kbb = "K[np.ix_(bset, bset)]"
+    NZ = f"{kbb}.any(axis=0)"
+
+    def run(trim):
+        S = Run(ctx, fn, inline=inl, consts=consts, callv=_solve_model, cond=cond, run=False)
+        S.sign("len(bset) - 6", "pos")
+        S.truth(f"(~{NZ}).any()", trim)
+        S.truth("verbose", False)
+        S.truth("rb_normalizer is None", True)
+        S.sign("np.size(K, 0) - len(bset)", "pos")
+        S.ev.run(fn.body)
+        return S
+
+    def unwrap(S, what):
+        r = S.ret()
+        if not isinstance(r, NS) or "rbmodes" not in r.fields or not is_rat(r.fields["rbmodes"]):
+            ctx.error(f"_cbcoordchk ({what}): the returned namespace (field rbmodes) was not lowered", fn, _r(r))
+            return None
+        full = r.fields["rbmodes"]
+        b = S.buf(full)
+        cl = S.cells(full)
+        inner = S.cell(full, "bset")
+        ok = b is not None and is_rat(b.init) and b.init.is_zero() and len(cl) == 1 and is_rat(inner)
+        _chk(ctx, S, ok, f"_cbcoordchk ({what}): with modal DOF present the returned modes are zero at the modal DOF and the boundary modes at the b-set rows", r.node or fn,
+             None if ok else {"rbmodes": _r(full), "stores": [(_r(i, 80), _r(v, 120)) for i, v, _ in cl]}, arrays=[full])
+        return inner if ok else None
+
+    def modes(S, R, ref, kb, nb, what):
+        """R: the array of boundary modes; ref: value of the reference DOF; kb: value of the boundary stiffness; nb: value of its size"""
+        o = S.root("locate.flippv(__r, __n)", __r=ref, __n=nb)
+        eye = S.cell(R, ref)
+        oth = S.cell(R, o)
+        b = S.buf(R)
+        sc = split_call(eye) if is_rat(eye) else None
+        ok = sc is not None and sc[0] in ("np.eye", "np.identity") and sc[1] and eq(sc[1][0], F.const(6))
+        _chk(ctx, S, ok, f"_cbcoordchk ({what}): the rigid-body modes are the identity at the six reference DOF", fn,
+             None if ok else {"stores": [(_r(i, 100), _r(v, 100)) for i, v, _ in S.cells(R)]}, arrays=[R])
+        want = -S.root("__k[np.ix_(__o, __r)]", __k=kb, __o=o, __r=ref) / S.root("__k[np.ix_(__o, __o)]", __k=kb, __o=o)
+        ok = eq(oth, want) and len(S.cells(R)) == 2 and b is not None and is_rat(b.init) and b.init.is_zero()
+        _chk(ctx, S, ok, f"_cbcoordchk ({what}): at the other boundary DOF the modes are -Koo^-1 Kor (Koo x_o + Kor x_r = 0 with the partitions of the same boundary "
+                         "stiffness, o the complement of the reference DOF)", fn, None if ok else {"got": _r(oth, 300), "want": _r(want, 300)}, arrays=[R])
+
+    # ---- every boundary DOF has stiffness
+    S = run(False)
+    R = unwrap(S, "no null boundary DOF")
+    if R is not None:
+        modes(S, R, S.root("refpoint - np.min(bset)"), S.root(kbb), S.root("len(bset)"), "no null boundary DOF")
+    # ---- some boundary DOF have no stiffness: trimmed, solved, re-inserted
+    S = run(True)
+    X = unwrap(S, "null boundary DOF")
+    if X is None:
+        return
+    bx = S.buf(X)
+    cl = S.cells(X)
+    R = S.cell(X, S.root(NZ))
+    zr = S.cell(X, S.root(f"~{NZ}"))
+    zeroed = (is_rat(zr) and zr.is_zero() and len(cl) == 2) or (zr is None and bx is not None and is_rat(bx.init) and bx.init.is_zero() and len(cl) == 1)
+    ok = is_rat(R) and zeroed
+    _chk(ctx, S, ok, "_cbcoordchk (null boundary DOF): the computed modes go back to the rows that have stiffness, the rows without stiffness are zero", fn,
+         None if ok else {"stores": [(_r(i, 100), _r(v, 100)) for i, v, _ in cl]}, arrays=[X])
+    if not ok:
+        return
+    k1 = S.root(f"{kbb}[np.ix_({NZ}, {NZ})]")
+    cr = S.cells(R)
+    refs = [ix for ix, v, _ in cr if is_rat(v) and split_call(v) is not None and split_call(v)[0] in ("np.eye", "np.identity")]
+    if len(refs) != 1 or not is_rat(refs[0]):
+        ctx.error("_cbcoordchk (null boundary DOF): the store of the identity at the reference DOF was not found", fn, [(_r(i, 100), _r(v, 100)) for i, v, _ in cr])
+        return
+    new = refs[0]
+    old = S.root("refpoint - np.min(bset)")
+    modes(S, R, new, k1, S.root("__k.shape[0]", __k=k1), "null boundary DOF")
+    # ---- the renumbering of the reference DOF
+    good = False
+    u = unfn(new)
+    if u is not None and u[0] == "nonzero0":
+        w = unfn(u[1][0])
+        if w is not None and w[0] == "idx" and eq(w[1][1], S.root(NZ)):
+            mask = w[1][0]
+            sc = split_call(mask)
+            if sc is not None and sc[0] == "locate.index2bool" and len(sc[1]) == 2 and eq(sc[1][0], old) and S.same(sc[1][1], "len(bset)"):
+                good = True
+            mb = S.buf(mask)
+            if mb is not None and is_rat(mb.init) and mb.init.is_zero():
+                mc = S.cells(mask)
+                if len(mc) == 1 and eq(mc[0][0], old) and is_rat(mc[0][1]) and mc[0][1].equals(1):
+                    good = True
+    # other spellings of the same compaction: old - (number of removed DOF up to it), position of old among the kept DOF
+    Z = S.root(f"~{NZ}")
+    for cand in ("__o - np.cumsum(__z)[__o]", "np.searchsorted(np.flatnonzero(__n), __o)", "np.cumsum(__n)[__o] - 1"):
+        if eq(new, S.root(cand, __o=old, __z=Z, __n=S.root(NZ))):
+            good = True
+    if good:
+        ctx.ok("_cbcoordchk (null boundary DOF): each reference DOF is renumbered by its own position among the DOF that are kept (membership mask of the "
+               "reference DOF, selected by the same mask that trims the stiffness)", fn)
+    else:
+        try:
+            shift = new - old
+        except Unsupported:
+            shift = None
+        if shift is not None and _is_scalar(shift):
+            ctx.fail("_cbcoordchk (null boundary DOF): each reference DOF is renumbered by its own position among the DOF that are kept", fn,
+                     {"new - old": _r(shift, 300), "why": "all six reference DOF are shifted by one common number: wrong whenever a removed (null) DOF lies between two "
+                                                          "reference DOF, e.g. reference DOF spread over several nodes"})
+        else:
+            ctx.error("_cbcoordchk (null boundary DOF): the renumbering of the reference DOF after trimming was not recognised", fn, _r(new, 400))
 
 
 RULES = [
-    ("C06-R1", r1_cbtf, 14),
-    ("C06-R2", r2_conversion, 11),
-    ("C06-R3", r3_reorder, 8),
-    ("C06-R4", r4_static_condensation, 6),
-    ("C06-R5", r5_cbcheck_quantities, 20),
+    ("C06-R1", r1_cbtf, 24),
+    ("C06-R2", r2_conversion, 16),
+    ("C06-R3", r3_reorder, 9),
+    ("C06-R4", r4_static_condensation, 8),
+    ("C06-R5", r5_cbcheck_quantities, 22),
+    ("C06-R6", r6_coordchk, 8),
 ]
 LEVEL = "other"
 EXPLANATION = ("Static: cbtf uses the boundary/interior partitions consistently (index-space typing), returns the enforced boundary acceleration itself, loads the "
@@ -514,6 +1023,6 @@ MANIFEST = {
             "the eigenproblem solved for exactly those, expanded massless rows = -Kzz^-1 Kzx v, null rows/columns removed by one mask and re-inserted as zeros; "
             "(R5) cbcheck builds the mass, grounding and effective-mass quantities of the stiffness / geometry / eigensolution rigid-body sets from the matrix "
             "partition of each set's own size and puts each into the report / namespace slot of its own label, rbe normalised at the reference DOF. Not decided: cbcheck's rigid-body, effective-mass and grounding numbers, cgmass, numerical accuracy of cbtf.",
-    "note": "Trusted: CPython ast; verifier/e2_formula.py, verifier/e3_spaces.py; the USET row layout documented in n2p.addgrid (row 1 location, row 2 ids, row 3 origin, rows 4-6 T).",
-    "technique": "static index-space typing + symbolic factor checks + structural who-passes-what rules",
+    "note": "Trusted: CPython ast; verifier/e2_formula.py, verifier/c06_sem.py; the USET row layout documented in n2p.addgrid (row 1 location, row 2 ids, row 3 origin, rows 4-6 T).",
+    "technique": "symbolic evaluation on values (arrays as objects, namespaces by field name, helpers followed, regimes as facts about values) + index-space typing of the evaluated subscripts",
 }
